@@ -3,7 +3,7 @@ _TINY = ["ARDUINOJSON_SLOT_ID_SIZE=1", "ARDUINOJSON_POOL_CAPACITY=4", "ARDUINOJS
 def _hx_levels(depth, alphabet, defs, cap=0, extra=None):
     jobs = []
     for lvl in range(1, depth + 1):
-        jobs.append({"src": "checks/hx.cpp", "mode": "bfs", "defs": list(defs), "deps": ["checks/hx.hpp"],
+        jobs.append({"src": "checks/hx.cpp", "mode": "bfs", "defs": list(defs), "deps": ["checks/hx.hpp", "checks/hx_fault.hpp", "checks/hx_limits.hpp"],
                      "fallback_defs": ["VERIF_NO_INSPECTOR"],
                      "args": ["--level=%d" % lvl, "--depth=%d" % depth, "--alphabet=%s" % alphabet, "--cap=%d" % cap] + (extra or [])})
     return jobs
